@@ -99,3 +99,85 @@ def case_interp(case):
     nb = sum(1 for r_ in case["recs"] if r_)
     res["nontrivial"] = 0 < len(out["lines"] or []) < nb
     return res
+
+
+def num_canon(x):
+    """numbers by value (3 and 3.0 agree), containers recursively"""
+    if isinstance(x, bool) or x is None or isinstance(x, str):
+        return x
+    if isinstance(x, (int, float)):
+        return float(x)
+    if isinstance(x, (list, tuple)):
+        return [num_canon(y) for y in x]
+    if isinstance(x, dict):
+        return {str(k): num_canon(v) for k, v in sorted(x.items(), key=lambda kv: str(kv[0]))}
+    return str(x)
+
+
+def judge_against_spec(case, out, prog):
+    """the real run against the reference semantics S; returns (violations, triggers, note)"""
+    import spec_eval
+
+    try:
+        sp = spec_eval.judge(prog, case["recs"], case["scan"], case["and"])
+    except spec_eval.OutOfClass as e:
+        return [], set(), f"outside the documented core: {e}"
+    except Exception as e:  # noqa: BLE001
+        return [], set(), f"spec evaluator error: {e.__class__.__name__}: {e}"
+    vio = []
+    if out["lines"] != sp.lines:
+        vio.append({"what": "returned lines differ from the lines on which the components hold", "got": out["lines"], "want": sp.lines})
+    if out["flags"]["match_count"] != sp.match_count:
+        vio.append({"what": "match_count differs from the number of lines that matched", "got": out["flags"]["match_count"], "want": sp.match_count})
+    if out["scan_count"] != sp.scan_count:
+        vio.append({"what": "scan_count differs from the number of lines offered", "got": out["scan_count"], "want": sp.scan_count})
+    if out["flags"]["valid"] != sp.valid:
+        vio.append({"what": "validity verdict", "got": out["flags"]["valid"], "want": sp.valid})
+    rv = num_canon(real_vars(out["variables"]))
+    sv = num_canon(sp.vars)
+    if rv != sv:
+        vio.append({"what": "variables differ from the values the csvpath assigns", "got": rv, "want": sv})
+    rp = [e[1] for e in out["printouts"]]
+    if rp != sp.prints:
+        vio.append({"what": "printouts", "got": rp, "want": sp.prints})
+    return vio, sp.trigger, None
+
+
+def case_spec(case):
+    """correspondence with M and judgement against S in one pass"""
+    import ast_extract
+    import real_run
+
+    res = case_interp(case)
+    res["spec"] = []
+    res["triggers"] = []
+    recs = case["recs"]
+    path = real_run.write_file("in.csv", recs)
+    mode = "" if case["and"] else "~ logic-mode: OR ~ "
+    text = f"{mode}${path}[{case['scan']}][{case['match']}]"
+    out, p = real_run.run_single(text, "collect", policy=["collect"])
+    if "parse_error" in out or out.get("raised") or out.get("errors") or has_recursion_error(out) or has_cycle(out.get("variables")):
+        res["spec_note"] = "real run has errors"
+        return res
+    try:
+        prog, _ = ast_extract.prog_of(text)
+    except Exception as e:  # noqa: BLE001
+        res["spec_note"] = f"no tree: {e.__class__.__name__}"
+        return res
+    vio, trig, note = judge_against_spec(case, out, prog)
+    res["spec"] = vio
+    res["triggers"] = sorted(trig)
+    res["spec_note"] = note
+    return res
+
+
+def add_component(match, extra):
+    """append a component, but keep a trailing `last() -> …` component last (quantifier of C01)"""
+    import re
+
+    m = re.search(r"(\s)(last\(\) -> .*)$", match, re.S)
+    if m and not match.startswith("last() ->"):
+        return match[: m.start()] + " " + extra + m.group(1) + m.group(2)
+    if match.startswith("last() ->"):
+        return extra + " " + match
+    return match + " " + extra
